@@ -141,6 +141,8 @@ def random_plan(seed, idx):
         p = r.randrange(3)
         key = r.choice(KEYS)
         ch = r.choice("mmu")
+        # endpoint options come and go between the offers (and the StopOffer) of one service instance: same instance
+        opts = r.choice([None, None, None, [["ep", 4, f"10.0.0.{11 + p}", 17, 30500]], [["ep", 4, f"10.0.0.{11 + p}", 17, 30501]], [["ep", 4, f"10.0.0.{11 + p}", 17, 30500], ["ep", 4, f"10.0.0.{11 + p}", 6, 30500]]])
         if k < 0.40:
             extra = None
             if r.random() < 0.15:
@@ -150,14 +152,14 @@ def random_plan(seed, idx):
             if r.random() < 0.08:
                 k3 = r.choice(KEYS)  # a second SD message in the same datagram
                 second = [["offer", k3[0], k3[1], k3[2], k3[3], r.choice([0, 1, 3, INF_TTL])]]
-            b.offer(p, key, r.choice([1, 1, 2, 3, INF_TTL]), ch, extra, second=second)
+            b.offer(p, key, r.choice([1, 1, 2, 3, INF_TTL]), ch, extra, second=second, opts=opts)
         elif k < 0.50:
-            b.offer(p, key, 0, ch)
+            b.offer(p, key, 0, ch, opts=opts)
         elif k < 0.65:
             b.preboot(p)
             w = r.random()
             if w < 0.6:
-                b.offer(p, key, r.choice([1, 2, 3, INF_TTL]), ch)
+                b.offer(p, key, r.choice([1, 2, 3, INF_TTL]), ch, opts=opts)
             elif w < 0.8:
                 b.find(p, ch)
             else:
